@@ -46,7 +46,10 @@ func simDisk(cs *compState) {
 	for i := 0; i < n; i++ {
 		bs := bsizes[cs.Draw(len(bsizes))]
 		var total uint64
-		switch cs.Draw(6) {
+		zeroSized := false
+		switch cs.Draw(7) {
+		case 6:
+			zeroSized = true // a volume that reports no blocks at all (pseudo file systems, some network mounts)
 		case 0:
 			total = 256 * gib
 		case 1:
@@ -61,7 +64,7 @@ func simDisk(cs *compState) {
 			total = uint64(1+cs.Draw(255)) * gib / 7 * 3
 		}
 		total -= total % uint64(bs)
-		if total == 0 {
+		if total == 0 && !zeroSized {
 			total = uint64(bs)
 		}
 		minSpace := 0.0
